@@ -157,6 +157,9 @@ func c35Monitor(w *world.World, limit int, all []*c35Att, nPre int, ctr map[stri
 	closed := make([]bool, n)
 	counted := make([]bool, n) // between OnSessionEstablish and close: counted by a correct limit check
 	fullAtRead := make([]bool, n)
+	firstLen := make([]int, n)   // length of the first packet
+	lateSeen := make([]bool, n)  // something was written after a refusal
+	lateSeen2 := make([]bool, n) // a second CONNACK was written
 	verOf := map[int]byte{}
 	connOfClient := map[*mqtt.Client]int{}
 	for _, a := range all {
@@ -198,6 +201,20 @@ func c35Monitor(w *world.World, limit int, all []*c35Att, nPre int, ctr map[stri
 		case "conn-write":
 			out[i] = append(out[i], e.Bytes...)
 			if decided[i] {
+				// whatever follows the CONNACK: never a second CONNACK, and nothing at all after a refusal
+				rest := out[i][firstLen[i]:]
+				if refused[i] > 0 && !lateSeen[i] {
+					lateSeen[i] = true
+					add("packet-after-refusal", fmt.Sprintf("conn%d was refused with %#x and was then written % x", i, refused[i]-1, rest), nil)
+				}
+				if pks, _, _, err := ref.DecodeStream(rest, verOf[i]); err == nil {
+					for _, q := range pks {
+						if q.Type == ref.CONNACK && !lateSeen2[i] {
+							lateSeen2[i] = true
+							add("second-connack", fmt.Sprintf("conn%d was sent a second CONNACK: %s", i, q), nil)
+						}
+					}
+				}
 				continue
 			}
 			p, used, err := ref.DecodeOne(out[i], verOf[i])
@@ -213,6 +230,7 @@ func c35Monitor(w *world.World, limit int, all []*c35Att, nPre int, ctr map[stri
 				continue
 			}
 			decided[i] = true
+			firstLen[i] = used
 			if p.Type != ref.CONNACK {
 				add("first-packet-not-connack", fmt.Sprintf("conn%d: first packet is %s", i, p), nil)
 				continue
